@@ -207,12 +207,20 @@ pub fn run(outdir: &str, seed: u64, thorough: bool) -> serde_json::Value {
             let t2 = t + Duration::milliseconds(*r.pick(&[1i64, 250, 1000]));
             let (a, vs): (DataType, Vec<Value>) = match r.below(4) {
                 0 => { let x = d.and_time(t); let y = d.and_time(t2); (DataType::date_time_values([x, y]), vec![Value::date_time(x), Value::date_time(y)]) }
-                1 => { let y = d + Duration::days(1); (DataType::date_values([d, y]), vec![Value::date(d), Value::date(y)]) }
+                // (one day apart; one case in two: the first and last days of a year, and the same day of the next year)
+                1 => { let d = if r.chance(1, 2) { NaiveDate::from_ymd_opt(1990 + r.range(0, 40) as i32, *r.pick(&[1u32, 12]), 1).unwrap() + Duration::days(*r.pick(&[0i64, 1, 2, 28, 29, 30])) } else { d };
+                       let y = d + Duration::days(1); let z = NaiveDate::from_ymd_opt(chrono::Datelike::year(&d) + 1, chrono::Datelike::month(&d), chrono::Datelike::day(&d).min(28)).unwrap();
+                       (DataType::date_values([d, y, z]), vec![Value::date(d), Value::date(y), Value::date(z)]) }
                 2 => (DataType::time_values([t, t2]), vec![Value::time(t), Value::time(t2)]),
                 _ => { let x = Duration::milliseconds(r.range(0, 5000)); let y = x + Duration::milliseconds(*r.pick(&[1i64, 1000])); (DataType::duration_values([x, y]), vec![Value::duration(x), Value::duration(y)]) }
             };
             st.bump("temporal_cases");
             laws(&mut st, &a, "text", &text, &vs, k + 10);
+            // the text of a date reads back as that date (ISO calendar date)
+            if let Ok(inj) = a.inject_into(&text) { for v in vs.iter() { if let (Value::Date(d0), Ok(Value::Text(t))) = (v, inj.value(v)) {
+                st.bump("date_texts_read_back");
+                if NaiveDate::parse_from_str(t.as_str(), "%Y-%m-%d").ok() != Some(**d0) { st.violation(json!({"kind":"converted-text-does-not-read-back","class":"date","source_type":a.to_string(),"value":v.to_string(),"converted":t.to_string()})); }
+            } } }
         }
     }
     // ---- floats that agree on their first digits, at large and small magnitudes, into every target: a conversion through a
